@@ -18,7 +18,8 @@ import (
 
 func init() {
 	register(&Property{
-		ID: "C16",
+		ID:    "C16",
+		Yield: true,
 		Rule: "sessions of 100..1000 numbered events with 2..5 foreground and 1..4 background well-behaved counting handlers plus victims that panic at PRNG positions (user foreground, user background, and built-in " +
 			"handlers made to panic with short lines such as bare PING, '433 x', 'CAP x', 'PRIVMSG'-less CTCP) with values {string, error, custom struct, runtime error, panic(nil)}, under the default recovery (LogPanic) " +
 			"and a custom one, with 0..8 background handlers that park forever on every event. Judged at markers: the recovery function ran exactly once per thrown panic with that value and an equal line " +
